@@ -14,6 +14,7 @@ import (
 	"verifharness/props/c20"
 	"verifharness/props/conv"
 	"verifharness/props/pipe"
+	"verifharness/props/rt"
 	"verifharness/props/ws"
 )
 
@@ -31,7 +32,10 @@ var drivers = map[string]runner{
 	"C16": c16.Run,
 	"C20": c20.Run,
 	"C01": conv.RunC01,
+	"C02": rt.RunC02,
 	"C03": pipe.RunC03,
+	"C06": rt.RunC06,
+	"C19": rt.RunC19,
 	"C05": pipe.RunC05,
 	"C08": pipe.RunC08,
 	"C17": pipe.RunC17,
